@@ -72,6 +72,22 @@ pub fn main(rest: &[String]) -> i32 {
         if a.long > 0 {
             run_long(&a, &roots, &mut rng, &mut out);
         } else {
+            // the first file starts by loading every root once and playing one move from it (and taking it back):
+            // what a root exercises does not depend on the draw of the random walk
+            if file_idx == 0 {
+                for fen in &roots {
+                    let mut game = Game::from_fen(fen).unwrap();
+                    emit(&mut out, "load", None, &game);
+                    let moves = game.moves();
+                    if !moves.is_empty() {
+                        let mv = moves[rng.gen_range(0..moves.len())];
+                        game.make_move(mv);
+                        emit(&mut out, "make", Some(proj::pack_move(mv)), &game);
+                        game.undo_move();
+                        emit(&mut out, "undo", None, &game);
+                    }
+                }
+            }
             run(&a, &roots, &mut rng, &mut out);
         }
         out.flush().unwrap();
